@@ -39,6 +39,7 @@ type Clause struct {
 	Expr  ast.Expr
 	Line  string
 	Cond  ast.Expr // modifies items: "item if cond"
+	Thorough bool  // proved (and, for invariants, assumed) only in the thorough tier; callers may rely on it in both tiers
 }
 
 // CaseSplit: "cases <expr> in lo..hi" — the proof is split by the value of an integer expression of
@@ -53,6 +54,7 @@ type LoopSpec struct {
 	N         int
 	Invs      []*Clause
 	Steps     []*Clause // proved at every back edge (phis still denote the values at the loop head)
+	Unfolds   []*Clause // rec-function applications whose defining equation is assumed at the loop head
 	Decreases *Clause
 }
 
@@ -72,6 +74,8 @@ type FuncSpec struct {
 	PanicsOK  bool
 	Cases     []*CaseSplit
 	Splits    []*Clause // callers fork on these pre-state conditions when using the contract
+	Unfolds   []*Clause // rec-function applications (entry state) whose defining equation is assumed
+	Fuel      int
 	Preserves map[string][]*Clause // function-typed parameter -> regions its calls are assumed to leave unchanged
 	CalleeReq map[string][]*Clause // function-typed parameter -> conditions proved at each call through it (arguments a0, a1, …)
 	IsLemma   bool
@@ -167,6 +171,10 @@ func (ss *SpecSet) LoadSpecFile(path, pkgPath string) error {
 		mk := func(s string) (*Clause, error) {
 			cl := &Clause{Line: where}
 			s = strings.TrimSpace(s)
+			if strings.HasPrefix(s, "thorough ") {
+				cl.Thorough = true
+				s = strings.TrimSpace(strings.TrimPrefix(s, "thorough "))
+			}
 			// optional label "name: expr"
 			if j := strings.Index(s, ":"); j > 0 && isIdent(s[:j]) && !strings.HasPrefix(s[j:], "::") {
 				cl.Label = s[:j]
@@ -259,6 +267,20 @@ func (ss *SpecSet) LoadSpecFile(path, pkgPath string) error {
 				return err
 			}
 			cur.Splits = append(cur.Splits, cl)
+		case "unfold":
+			cl, err := mk(rest)
+			if err != nil {
+				return err
+			}
+			if curLoop != nil {
+				curLoop.Unfolds = append(curLoop.Unfolds, cl)
+			} else if cur != nil {
+				cur.Unfolds = append(cur.Unfolds, cl)
+			}
+		case "fuel":
+			if cur != nil {
+				fmt.Sscanf(rest, "%d", &cur.Fuel)
+			}
 		case "step":
 			if curLoop == nil {
 				return fmt.Errorf("%s: step outside loop", where)
